@@ -462,6 +462,10 @@ class DiskExec(Exec):
         k0 = ent.k - 1
         seed = self.case['seed']
         ref.idgen = refstore.RefSequenceGen(lambda k: seams.entropy_value(seed, k0 + k))
+        if not seams.uuid_through_seam(self.x):
+            g, ref.idgen = store.make_idgen(self.x, 'uuid', seed)
+            m2.id_generator = g
+            w.gen = g
         self.extra['has_peek'] = callable(getattr(w.gen, 'peek', None))
         ref.adopted.clear()
 
